@@ -129,7 +129,7 @@ CHECKS = {
 # What later rounds added to each check (appended to the level text; DESIGN.md sections 10.6-10.7 have the history).
 ADDED = {
  "C01": "Added since: the global-reassign dialect and globally binding loads (reference: static point-of-use resolution), bare expression statements, every 3- and 4-operand '+' chain over eight operand shapes (exhaustive), and host-side calls of the module's functions after it has finished, compared between the two interpreters; non-boolean conditions, unary operators, repeated assignment targets.",
- "C02": "Added since: operators, comprehensions, unpacking and augmented assignment as callees over the same hostile pool (every pair of a 25-value core pool in the quick tier, of the whole pool in the thorough tier), well-formed programs with one construct repeated n times for n next to 2^7, 2^8, 2^14, 2^16, the 64 KiB bombs enumerated, one pool name used twice denoting one object, and a hang rule: a call on small operands that does not return within the limit and again within 60 s is a violation.",
+ "C02": "Added since: operators, comprehensions, unpacking and augmented assignment as callees over the same hostile pool (every pair of a 25-value core pool in the quick tier, of the whole 76-value pool in the thorough tier; for the ~300 built-ins and methods a seeded 1/300 resp. 1/6 of the pairs), well-formed programs with one construct repeated n times for n next to 2^7, 2^8, 2^14, 2^16, the 64 KiB bombs enumerated, one pool name used twice denoting one object, and a hang rule: a call on small operands that does not return within the limit and again within 60 s is a violation.",
  "C03": "Added since: a set of frozen Go values shared by every execution of a case (pure operators on them, iteration, every kind of rejected mutation with its error text, a final dump), failures whose message carries a spelling suggestion, one compiled Program initialised concurrently by several threads, and lookups of every key that iteration yields.",
  "C04": "Added since: values derived from every frozen node inside a second module, functions of the first module called from the second, values born in the second module from a frozen operand and a fresh part (its globals get the full mutator catalogue too), bound methods whose receiver is reachable through the bound method only, keyword-only default shapes; the first module's snapshot compared around the second module's execution.",
  "C05": "Added since: never-populated tables, values derived from slices of shared tuples/lists, two-level closure factories whose products are called and stored, push iterators saved while the module executes and ranged after the freeze, and poke(): a descent into keys, elements, bound methods and results of shared functions attempting a mutation at every node.",
